@@ -41,11 +41,56 @@ def _sr_index(node):
     return None
 
 
+class FailedList:
+    """where the (0008,0058) Failed SOP Instance UID List comes from in one SCP function: the local list, the
+    expressions that denote it in a response (`L` or a call of a nested helper that returns a view of L), the
+    calls that record a failed instance (`L.append`, nested helpers that append to L) and what they record"""
+
+    def __init__(self, fn: ast.FunctionDef):
+        self.exprs: set[str] = set()
+        self.adders: set[str] = set()
+        self.name: str | None = None
+        self.lazy: list[ast.AST] = []  # reads of a data-set attribute at response time
+        self.refs: list[ast.AST] = []  # appended values that are objects, not UID values
+        nested = {f.name: f for f in ast.walk(fn) if isinstance(f, ast.FunctionDef) and f is not fn}
+        for a in ast.walk(fn):
+            if isinstance(a, ast.Assign) and norm(a.targets[0]).endswith(".FailedSOPInstanceUIDList"):
+                v = a.value
+                if isinstance(v, ast.Name):
+                    self.name = self.name or v.id
+                    self.exprs.add(norm(v))
+                elif isinstance(v, ast.Call) and isinstance(v.func, ast.Name) and v.func.id in nested and not v.args:
+                    h = nested[v.func.id]
+                    self.exprs.add(norm(v))
+                    outer = [n_.id for n_ in ast.walk(h) if isinstance(n_, ast.Name) and isinstance(n_.ctx, ast.Load) and n_.id not in {x.arg for x in h.args.args}]
+                    cands = [n_ for n_ in outer if any(isinstance(c, ast.Call) and norm(c.func) == f"{n_}.append" for c in ast.walk(fn))]
+                    if cands:
+                        self.name = self.name or cands[0]
+                    for x in ast.walk(h):
+                        if isinstance(x, ast.Attribute) and x.attr == "SOPInstanceUID":
+                            self.lazy.append(x)
+        if self.name is None:
+            return
+        self.exprs.add(self.name)
+        self.adders.add(f"{self.name}.append")
+        for hname, h in nested.items():
+            if any(isinstance(c, ast.Call) and norm(c.func) == f"{self.name}.append" for c in ast.walk(h)):
+                self.adders.add(hname)
+        for c in ast.walk(fn):
+            if isinstance(c, ast.Call) and norm(c.func) == f"{self.name}.append" and c.args:
+                v = c.args[0]
+                if not (isinstance(v, ast.Constant) or (isinstance(v, ast.Attribute) and v.attr == "SOPInstanceUID") or (isinstance(v, ast.Call) and norm(v.func) in ("str", "UID"))):
+                    self.refs.append(c)
+
+
 def analyse(repo: Repo, rep: Report, fname: str, store_cats: frozenset, qr_table: dict):
     mod = repo.mod("service_class")
     fn = repo.func("service_class", f"QueryRetrieveServiceClass.{fname}")
     fq = f"service_class.QueryRetrieveServiceClass.{fname}"
     rep.saw("functions", fq)
+    fl = FailedList(fn)
+    rep.need(fl.name is not None, f"{fq}: the list behind FailedSOPInstanceUIDList was not found")
+    rep.check(not fl.lazy and not fl.refs, "failed-list", fq, (enclosing((fl.lazy + fl.refs)[0], (ast.stmt,)) if (fl.lazy + fl.refs) else f"{fl.name}: UID values recorded when the sub-operation fails"), "the failed-instance list keeps references to the data sets the handler yielded and reads their SOP Instance UID only when a response is built: a handler that reuses, re-labels or clears the yielded Dataset object (it owns it) changes what an already failed sub-operation is listed as - the final response no longer lists exactly the failed instances; the UID value must be copied when the failure is counted", mod=mod, node=(fl.lazy + fl.refs)[0] if (fl.lazy + fl.refs) else fn)
     # exceptions that are caught inside the function are real alternative paths (a C-STORE
     # sub-operation that raises skips the rest of its try body)
     cfg = CFG(fn, body=body_nodoc(fn), local_exc_only=True)
@@ -97,7 +142,7 @@ def analyse(repo: Repo, rep: Report, fname: str, store_cats: frozenset, qr_table
                     pend_failed = True
             elif isinstance(a, ast.Expr) and isinstance(a.value, ast.Call):
                 d = dotted(a.value.func) or ""
-                if d in ("_add_failed_instance", "failed_instances.append"):
+                if d in fl.adders:
                     pend_failed = False
                 elif d.endswith("dimse.send_msg"):
                     n_sends[0] += 1
@@ -138,7 +183,10 @@ def analyse(repo: Repo, rep: Report, fname: str, store_cats: frozenset, qr_table
             t = n.ast.test
             if isinstance(t, ast.Compare) and norm(t.left) == "store_status[0]" and isinstance(t.ops[0], ast.Eq) and isinstance(t.comparators[0], ast.Name):
                 if cats is None:
-                    raise AnalysisError(f"{fq}: store_status tested before assignment at line {n.line}")
+                    # no assignment of the sub-operation's category on this path of this iteration: what is tested
+                    # is left over from the previous sub-operation (or from before the loop)
+                    bad("fresh-category", n, f"{norm(t)}: category not assigned in this iteration on this path", "the category that decides which counter this sub-operation goes to is not assigned on this path of the iteration (a send that raises, no response): the test reads what the previous sub-operation left there - after a Success the failed one is counted as completed, it is missing from the failed-instance list and the final status can be Success although an instance was never stored", (n, st))
+                    cats = store_cats
                 x = t.comparators[0].id
                 outs = []
                 if x in cats:
@@ -231,10 +279,10 @@ def analyse(repo: Repo, rep: Report, fname: str, store_cats: frozenset, qr_table
             return True
         if isinstance(e, ast.Call) and dotted(e.func) == "sum" and norm(e.args[0]) == "store_results":
             return sum(env["sr"])
-        if t == "failed_instances":
+        if t in fl.exprs:
             # one record per failed sub-operation (failed-list rule): non-empty exactly when failed > 0
             return ["x"] * env["sr"][1]
-        if isinstance(e, ast.Call) and dotted(e.func) == "len" and norm(e.args[0]) == "failed_instances":
+        if isinstance(e, ast.Call) and dotted(e.func) == "len" and norm(e.args[0]) in fl.exprs:
             return env["sr"][1]
         raise AnalysisError(f"{fq}: final-block condition not evaluable: {t}")
 
@@ -258,7 +306,7 @@ def analyse(repo: Repo, rep: Report, fname: str, store_cats: frozenset, qr_table
         for s in p.stmts:
             if isinstance(s, ast.Assign) and norm(s.targets[0]) == "rsp.Status" and isinstance(s.value, ast.Constant):
                 status = s.value.value
-            if isinstance(s, ast.Assign) and norm(s.targets[0]).endswith(".FailedSOPInstanceUIDList") and norm(s.value) == "failed_instances":
+            if isinstance(s, ast.Assign) and norm(s.targets[0]).endswith(".FailedSOPInstanceUIDList") and norm(s.value) in fl.exprs:
                 lists_failed = True
             if isinstance(s, ast.Expr) and isinstance(s.value, ast.Call) and (dotted(s.value.func) or "").endswith("dimse.send_msg"):
                 sends += 1
@@ -306,6 +354,7 @@ def run(repo: Repo, rep: Report, tier: str) -> None:
     rep.rule("conservation", "per loop iteration and at each Pending send: sum of store_results unchanged (== N); remaining drops by at most 1; others never drop")
     rep.rule("monotone", "remaining is only decremented, failed/warning/completed only incremented")
     rep.rule("fields", "NumberOfRemaining/Failed/Warning/Completed are assigned from store_results[0..3] respectively before each send")
+    rep.rule("fresh-category", "the category a sub-operation is tallied by is assigned in the same loop iteration on every path that tests it")
     rep.rule("failed-list", "every failed += 1 in the loop is paired with an entry in the failed-instance list")
     rep.rule("final-status", "final: Success iff no failures and no warnings; Failure iff all N failed; Warning otherwise; list attached")
     st = repo.mod("status")
@@ -400,6 +449,13 @@ def check_subop_classification(repo: Repo, rep: Report, rule: str = "classificat
             env = {"self": me, "store_assoc": assoc, "req": Obj("C_GET", {"MessageID": 1}), "ii": 0, "dataset": Obj("Dataset", {"SOPInstanceUID": "1.2"}), "store_results": results, "failed_instances": [], "_add_failed_instance": lambda *_a: None, "msg_id": 1, "rsp": Obj("DIMSEPrimitive", {})}
             g = {"STORAGE_SERVICE_CLASS_STATUS": storage}
             g.update(consts)
+            for f_ in ast.walk(fn):
+                if isinstance(f_, ast.FunctionDef) and f_ is not fn:
+                    env.setdefault(f_.name, lambda *_a, **_k: None)
+            for a_ in fn.body:
+                tg_ = a_.targets[0] if isinstance(a_, ast.Assign) else a_.target if isinstance(a_, ast.AnnAssign) and a_.value is not None else None
+                if isinstance(tg_, ast.Name) and isinstance(a_.value, ast.List) and not a_.value.elts:
+                    env.setdefault(tg_.id, [])
             it = Interp(g, method_resolver=resolver)
             try:
                 it.run(seg, env)
